@@ -90,7 +90,8 @@ class Runner:
         self.ctx, self.binary = ctx, binary
 
     def impl(self, ops):
-        return self.ctx.go_run(self.binary, TEST, ops)
+        # a hang (goroutine sent into a mutex) is bounded and becomes a harness error, never a violation
+        return self.ctx.go_run(self.binary, TEST, ops, timeout=max(120, len(ops) // 4))
 
     def model(self, ops):
         if not ops:
